@@ -2,6 +2,7 @@ package main
 
 import (
 	"go/ast"
+	"go/token"
 	"go/types"
 	"sort"
 	"strings"
@@ -24,6 +25,8 @@ func init() {
 		Explain: "Admission, pairing and existence rules of the mesh, decided for every router state: (R07.1) every own-initiative graft candidate comes from getPeers with a filter that returns true only for non-direct, non-backed-off peers with score >= 0 (opportunistic: > median, after the negative-score prune), the backoff map consulted by a filter is loaded after the last prune of the same iteration, getPeers keeps only connected mesh-capable peers accepted by the filter, and every key inserted into a mesh map is such a candidate; Join's fanout promotion drops members with negative score or backoff; (R07.2) handleGraft inserts only after: topic joined, not direct, not (backoff present and unexpired), score >= 0, not (mesh >= Dhi and not outbound), peerFilter; (R07.3) graftPeer/prunePeer closures pair the mesh write with the tograft/toprune append (and backoff), sendGraftPrune is on every heartbeat path, Join GRAFTs every member of the final mesh map, Leave PRUNEs every former member, and sendGraftPrune builds every PRUNE for a topic taken from the peer's toprune entry and every GRAFT for one from its tograft entry; (R07.4) mesh keys are created only in Join and deleted only in Leave, Join removes the topic's fanout/lastpub, fanout entries are created only by getFanoutPeersForPublishing which is consulted only on a failed mesh lookup; (R07.5) handleGraft admits only connected peers (known finding F8 today), OnClosedOutboundStream removes the peer from every mesh and fanout map; the heartbeat's negative-score loop prunes every negatively scored member; (R07.6) every integer division/modulo of the heartbeat by a parameter is safe for every accepted parameter set (validation rejects a zero divisor on every accepting path, including the bootstrapper early return). (audit round) R07.1: the promotion also drops direct peers; R07.2: the score judged is read after any penalty of the same control message (no stale use reachable from AddPenalty); R07.4: the lastpub stamp is deleted on every path of Join that creates the mesh. NOT decided: the quantitative post-conditions (grown to D, cut back to D keeping Dscore best / Dout outbound) — they depend on sorting run-time scores and random selection.",
 		Assume:  []string{"gs.peers holds exactly the peers with an outbound stream (C13)", "shufflePeers/sort only permute"},
 		Mutants: []Mutant{
+			{Name: "validate-allows-negative-dscore", File: "gossipsub.go", Old: "params.Dhi < 0 || params.Dscore < 0 || params.Dout < 0", New: "params.Dhi < 0 || params.Dout < 0", Expect: "R07.6"},
+			{Name: "direct-connect-ticks-zero-stored", File: "gossipsub.go", Old: "\t\tif t == 0 {\n\t\t\treturn fmt.Errorf(\"direct connect ticks must be positive\")\n\t\t}\n", New: "", Expect: "R07.6"},
 			{Name: "prune-topics-from-graft-list", File: "gossipsub.go", Old: "\t\t\tfor _, topic := range pruning {", New: "\t\t\tfor _, topic := range topics {", Expect: "R07.3"},
 			{Name: "join-filter-no-backoff", File: "gossipsub.go", Old: "\t\t\treturn !direct && !doBackOff && gs.score.Score(p) >= 0\n", New: "\t\t\treturn !direct && (!doBackOff || len(backoff) > 16) && gs.score.Score(p) >= 0\n", Expect: "R07.1"},
 			{Name: "heartbeat-filter-score-gt-neg", File: "gossipsub.go", Old: "\t\t\t\treturn !inMesh && !doBackoff && !direct && score(p) >= 0\n\t\t\t})\n\n\t\t\tfor _, p := range plst {\n\t\t\t\tgraftPeer(p)\n\t\t\t}\n\t\t}\n\n\t\t// do we have too many peers?", New: "\t\t\t\treturn !inMesh && !doBackoff && !direct && score(p) >= gs.publishThreshold\n\t\t\t})\n\n\t\t\tfor _, p := range plst {\n\t\t\t\tgraftPeer(p)\n\t\t\t}\n\t\t}\n\n\t\t// do we have too many peers?", Expect: "R07.1"},
@@ -47,16 +50,18 @@ func init() {
 		Explain: "Prune backoff, decided for every history: (R08.1) every place that puts a ControlGraft into an outgoing RPC is enumerated; fresh GRAFTs take candidates from the backoff-filtered getPeers calls (C07 R07.1, shared) or from the fanout members that survive Join's backoff deletion; retried GRAFTs (piggybackControl, flush) are re-sent only on the edge 'peer still in the topic mesh'; (R08.2) inner backoff maps are written only by doAddBackoff under backoff[p].Before(expire) with expire = time.Now().Add(interval), entries are deleted only by clearBackoff under expire.Add(slack).Before(now) with a non-negative constant slack; (R08.3) backoff is recorded wherever C08 says (handlePrune: the peer's value when > 0 else the default; Leave: unsubscribe backoff for every member; prunePeer; the three refusing arms of handleGraft) and the backed-off GRAFT arm penalises once, and once more under now.Before(floodCutoff); (R08.4) makePrune states the backoff for every peer with the PX feature, choosing UnsubscribeBackoff/PruneBackoff by the same flag as addBackoff. (audit round) R08.3 is anchored at the joined-topic edge (backoff owed whether or not the sender was a member); (R08.5) the duration subtracted from the expiry to recover the prune time equals every duration handed to doAddBackoff (known finding F38). NOT decided: deadline arithmetic against (virtual) time.",
 		Assume:  []string{"time.Now is monotone enough for Before/Add comparisons", "SendControl is an application escape hatch (named exemption)"},
 		Mutants: []Mutant{
+			{Name: "stated-backoff-rounded-down", File: "gossipsub.go", Old: "\tbackoff := uint64((gs.params.PruneBackoff + time.Second - 1) / time.Second)\n", New: "\tbackoff := uint64(gs.params.PruneBackoff / time.Second)\n", Expect: "R08.4"},
 			{Name: "flush-resends-raw-control", File: "gossipsub.go", Old: "\t\tout := &RPC{}\n\t\tgs.piggybackControl(p, out, ctl)\n\t\tif out.Control == nil {\n\t\t\tcontinue\n\t\t}\n\t\tgs.sendRPC(p, out, false)", New: "\t\tout := rpcWithControl(nil, nil, nil, ctl.Graft, ctl.Prune, nil)\n\t\tgs.sendRPC(p, out, false)", Expect: "R08.1"},
 			{Name: "piggyback-graft-unfiltered", File: "gossipsub.go", Old: "\t\t_, ok = peers[p]\n\t\tif ok {\n\t\t\ttograft = append(tograft, graft)\n\t\t}", New: "\t\t_, ok = peers[p]\n\t\tif ok || len(peers) < gs.params.Dlo {\n\t\t\ttograft = append(tograft, graft)\n\t\t}", Expect: "R08.1"},
 			{Name: "join-promotion-keeps-backoff", File: "gossipsub.go", Old: "\t\t\tif gs.score.Score(p) < 0 || doBackOff || direct {\n\t\t\t\tdelete(gmap, p)", New: "\t\t\tif gs.score.Score(p) < 0 || direct {\n\t\t\t\t_ = doBackOff\n\t\t\t\tdelete(gmap, p)", Expect: "R07.1"},
 			{Name: "clearbackoff-slack-wrong-side", File: "gossipsub.go", Old: "\t\t\tif expire.Add(2 * GossipSubHeartbeatInterval).Before(now) {", New: "\t\t\tif expire.Before(now.Add(2 * GossipSubHeartbeatInterval)) {", Expect: "R08.2"},
+			{Name: "named-backoff-unbounded", File: "gossipsub.go", Old: "\t\t\tif backoff > maxPruneBackoffSeconds {\n\t\t\t\tbackoff = maxPruneBackoffSeconds\n\t\t\t}\n", New: "", Expect: "R08.6"},
 			{Name: "handlegraft-direct-backoff-store", File: "gossipsub.go", Old: "\t\t\t// refresh the backoff\n\t\t\tgs.addBackoff(p, topic, false)", New: "\t\t\t// refresh the backoff\n\t\t\tgs.backoff[topic][p] = now.Add(gs.params.PruneBackoff)", Expect: "R08.2"},
 			{Name: "doaddbackoff-shortens", File: "gossipsub.go", Old: "\tif backoff[p].Before(expire) {\n\t\tbackoff[p] = expire\n\t}", New: "\tif backoff[p].Before(expire) || interval < time.Minute {\n\t\tbackoff[p] = expire\n\t}", Expect: "R08.2"},
-			{Name: "handleprune-ignores-named-backoff", File: "gossipsub.go", Old: "\t\tif backoff > 0 {\n\t\t\tgs.doAddBackoff(p, topic, time.Duration(backoff)*time.Second)", New: "\t\tif backoff > 0 && backoff < 3600 {\n\t\t\tgs.doAddBackoff(p, topic, time.Duration(backoff)*time.Second)", Expect: "R08.3"},
+			{Name: "handleprune-ignores-named-backoff", File: "gossipsub.go", Old: "\t\tif backoff > 0 {\n\t\t\t// the period is chosen by the peer", New: "\t\tif backoff > 0 && backoff < 3600 {\n\t\t\t// the period is chosen by the peer", Expect: "R08.3"},
 			{Name: "leave-default-backoff", File: "gossipsub.go", Old: "\t\tgs.addBackoff(p, topic, true)\n", New: "\t\tgs.addBackoff(p, topic, false)\n", Expect: "R08.3"},
 			{Name: "graft-backoff-single-penalty", File: "gossipsub.go", Old: "\t\t\tif now.Before(floodCutoff) {\n\t\t\t\t// extra penalty\n\t\t\t\tgs.score.AddPenalty(p, 1)\n\t\t\t}", New: "\t\t\tif now.Before(floodCutoff) && doPX {\n\t\t\t\t// extra penalty\n\t\t\t\tgs.score.AddPenalty(p, 1)\n\t\t\t}", Expect: "R08.3"},
-			{Name: "makeprune-unsub-backoff-swapped", File: "gossipsub.go", Old: "\tif isUnsubscribe {\n\t\tbackoff = uint64(gs.params.UnsubscribeBackoff / time.Second)\n\t}", New: "\tif !isUnsubscribe {\n\t\tbackoff = uint64(gs.params.UnsubscribeBackoff / time.Second)\n\t}", Expect: "R08.4"},
+			{Name: "makeprune-unsub-backoff-swapped", File: "gossipsub.go", Old: "\tif isUnsubscribe {\n\t\tbackoff = uint64((gs.params.UnsubscribeBackoff + time.Second - 1) / time.Second)\n\t}", New: "\tif !isUnsubscribe {\n\t\tbackoff = uint64((gs.params.UnsubscribeBackoff + time.Second - 1) / time.Second)\n\t}", Expect: "R08.4"},
 			{Name: "makeprune-no-backoff-without-px", File: "gossipsub.go", Old: "\treturn &pb.ControlPrune{TopicID: &topic, Peers: px, Backoff: &backoff}", New: "\tif !doPX {\n\t\treturn &pb.ControlPrune{TopicID: &topic}\n\t}\n\treturn &pb.ControlPrune{TopicID: &topic, Peers: px, Backoff: &backoff}", Expect: "R08.4"},
 		}})
 }
@@ -773,6 +778,101 @@ func runC07(c *RuleCtx) {
 		if n < 2 {
 			c.Undecided("R07.6", "heartbeat divisors", "inventory", nil, "fewer parameter divisors than known")
 		}
+		// ... and who may write them: a divisor parameter stored outside the validated parameter set (an option that
+		// writes gs.params.X directly) needs its own zero test
+		divisors := map[string]bool{}
+		for _, d := range p.IntDivisions() {
+			if d.Fn.File == "gossipsub.go" {
+				if dv := p.R(d.Fn).Val(d.Expr.Y); dv.Kind == "field" && strings.HasPrefix(dv.Name, "GossipSubParams.") {
+					divisors[dv.Name] = true
+				}
+			}
+		}
+		for fld := range divisors {
+			for _, s := range p.StoresTo(fld) {
+				if s.Kind != "assign" || s.RHS == nil {
+					continue
+				}
+				rv := p.R(s.Fn).Val(s.RHS)
+				if tv, ok := s.Fn.Info().Types[s.RHS]; ok && tv.Value != nil && tv.Value.String() != "0" {
+					continue // a non-zero constant (defaults)
+				}
+				zero := AtomCmp("value == 0", func(x *V) bool { return x.Equal(rv) }, "==", isZero)
+				pos := AtomCmp("value > 0", func(x *V) bool { return x.Equal(rv) }, ">", isZero)
+				ok, why := p.DomAny(s.Fn, s.Node, AtomWant{zero, false}, AtomWant{pos, true})
+				c.Check(ok, "R07.6", s.Fn.Root().Name, shortFn(fld)+" stored only if not zero", s.Node, why, "the divisor parameter "+shortFn(fld)+" is written directly, past GossipSubParams.validate, without a zero test: the heartbeat then divides by zero: "+why)
+			}
+		}
+		// slice bounds and slice lengths taken from a parameter: a negative value panics (slice bounds out of range /
+		// makeslice: len out of range); validation rejects it on every accepting path
+		nb := 0
+		seen := map[string]bool{}
+		needNonNeg := func(fn *Func, e ast.Expr, at ast.Node, what string) {
+			if e == nil {
+				return
+			}
+			bv := p.R(fn).Val(e)
+			var fld string
+			bv.Has(func(x *V) bool {
+				if x.Kind == "field" && strings.HasPrefix(x.Name, "GossipSubParams.") && fld == "" {
+					if fv, ok := x.Obj.(*types.Var); ok {
+						if b, ok := fv.Type().Underlying().(*types.Basic); ok && b.Info()&types.IsInteger != 0 && b.Info()&types.IsUnsigned == 0 {
+							fld = x.Name
+						}
+					}
+				}
+				return false
+			})
+			if fld == "" {
+				return
+			}
+			nb++
+			if seen[fld] || v == nil {
+				return
+			}
+			seen[fld] = true
+			neg := AtomCmp(shortFn(fld)+" < 0", isFieldOf(fld), "<", isZero)
+			okAll, cnt := true, 0
+			returnsIn(v, func(r *ast.ReturnStmt) {
+				if len(r.Results) == 1 && isNilV(p.R(v).Val(r.Results[0])) {
+					cnt++
+					if okr, _ := p.DomAny(v, r, AtomWant{neg, false}); !okr {
+						okAll = false
+					}
+				}
+			})
+			c.Check(okAll && cnt > 0, "R07.6", v.Name, shortFn(fld)+" accepted only if not negative", at, "rejected on every accepting path", "GossipSubParams.validate accepts a negative "+shortFn(fld)+", which "+fn.Root().Name+" uses as "+what+" at "+p.Pos(at)+": the event loop panics")
+		}
+		for _, f := range p.All {
+			if f.File != "gossipsub.go" || f.Body == nil || f.Parent != nil {
+				continue
+			}
+			ast.Inspect(f.Body, func(x ast.Node) bool {
+				switch e := x.(type) {
+				case *ast.SliceExpr:
+					fn := p.EnclosingFunc(e)
+					if fn == nil {
+						fn = f
+					}
+					needNonNeg(fn, e.Low, e, "a slice bound")
+					needNonNeg(fn, e.High, e, "a slice bound")
+				case *ast.CallExpr:
+					if id, ok := e.Fun.(*ast.Ident); ok && id.Name == "make" && len(e.Args) >= 2 {
+						fn := p.EnclosingFunc(e)
+						if fn == nil {
+							fn = f
+						}
+						if _, isB := fn.Info().Uses[id].(*types.Builtin); isB {
+							needNonNeg(fn, e.Args[1], e, "a slice length")
+						}
+					}
+				}
+				return true
+			})
+		}
+		if nb < 3 {
+			c.Undecided("R07.6", "parameter slice bounds", "inventory", nil, "fewer slice bounds/lengths taken from parameters than known: "+itoa(nb))
+		}
 	}
 	// negative-score prune (first clause of C07) — shares G10 with C09
 	sub := &RuleCtx{P: c.P, Prop: c.Prop, Min: map[string]int{}}
@@ -787,7 +887,7 @@ func runC07(c *RuleCtx) {
 	c.Min["R07.3"] = 14
 	c.Min["R07.4"] = 8
 	c.Min["R07.5"] = 5
-	c.Min["R07.6"] = 2
+	c.Min["R07.6"] = 7
 	c.Min["G10"] = 4
 }
 
@@ -1118,8 +1218,32 @@ func runC08(c *RuleCtx) {
 			}
 			ok, _ = g.MustPass(EdgeTarget(je), PassOpts{Cut: cut, Until: until}, func(n ast.Node) bool {
 				for _, cs := range p.CallsIn(f, n, false) {
-					if cs.Name == fnDoAddBO && p.R(f).Val(cs.Call.Args[2]).Has(func(v *V) bool { return v.IsCall("pb.(*ControlPrune).GetBackoff") }) {
-						return true
+					if cs.Name == fnDoAddBO {
+						// the peer's value, possibly carried (and clamped) through locals
+						fromPeer := false
+						ast.Inspect(cs.Call.Args[2], func(y ast.Node) bool {
+							if id, ok := y.(*ast.Ident); ok && !fromPeer {
+								for _, ch := range p.R(f).Sources(id) {
+									if ch.Leaf != nil && ch.Leaf.Has(func(v *V) bool { return v.IsCall("pb.(*ControlPrune).GetBackoff") }) {
+										fromPeer = true
+									}
+								}
+							}
+							return !fromPeer
+						})
+						if fromPeer {
+							return true
+						}
+						// the clamp arm: the peer's value exceeded a constant upper bound and that bound is recorded
+						big := AtomCmp("GetBackoff() > upper bound", isCallTo("pb.(*ControlPrune).GetBackoff"), ">", func(v *V) bool {
+							return v != nil && (v.Kind == "const" || v.Kind == "lit") && !isZero(v)
+						})
+						if okc, _ := p.DomAny(f, cs.Call, AtomWant{big, true}); okc {
+							return true
+						}
+						if p.R(f).Val(cs.Call.Args[2]).Has(func(v *V) bool { return v.IsCall("pb.(*ControlPrune).GetBackoff") }) {
+							return true
+						}
 					}
 				}
 				return false
@@ -1290,18 +1414,25 @@ func runC08(c *RuleCtx) {
 				want  bool
 			}{{"GossipSubParams.UnsubscribeBackoff", true}} {
 				found := false
+				k := 0
+				// every evaluation of the field — in an assignment, as a call argument, wherever — lies on the
+				// isUnsubscribe edge
 				inspectNoLit(ff.Body, func(x ast.Node) bool {
-					as, ok := x.(*ast.AssignStmt)
-					if !ok || len(as.Rhs) != 1 {
+					se, ok := x.(*ast.SelectorExpr)
+					if !ok {
 						return true
 					}
-					if !p.R(ff).Val(as.Rhs[0]).Has(func(v *V) bool { return v.IsField(tc.field) }) {
+					if sel, ok := ff.Info().Selections[se]; !ok || sel.Kind() != types.FieldVal || fieldOwnerName(sel) != tc.field {
 						return true
 					}
-					// resolve through defs would lose the statement; use the raw AST
 					found = true
-					ok2, why := p.DomAny(ff, as, AtomWant{unsub, tc.want})
-					c.Check(ok2, "R08.4", ff.Name, "UnsubscribeBackoff chosen exactly on isUnsubscribe", as, why, why)
+					k++
+					ok2, why := p.DomAny(ff, se, AtomWant{unsub, tc.want})
+					suffix := ""
+					if k > 1 {
+						suffix = "#" + itoa(k)
+					}
+					c.Check(ok2, "R08.4", ff.Name, "UnsubscribeBackoff chosen exactly on isUnsubscribe"+suffix, se, why, why)
 					return true
 				})
 				if !found {
@@ -1322,7 +1453,9 @@ func runC08(c *RuleCtx) {
 		}
 	}
 	c.Min["R07.1"] = 8
+	checkStatedBackoffNotRoundedDown(c)
 	checkFloodCutoffBase(c)
+	checkNamedBackoffBounded(c)
 	c.Min["R08.1"] = 7
 	c.Min["R08.2"] = 5
 	c.Min["R08.3"] = 12
@@ -1390,4 +1523,129 @@ func checkFloodCutoffBase(c *RuleCtx) {
 	sort.Strings(other)
 	c.Check(len(other) == 0, "R08.5", f.Name, "flood cutoff measured from the recorded prune time", site, "every backoff entry is recorded with the duration that is subtracted", "the flood cutoff is expire + GraftFloodThreshold - "+sub.String()+", which is the prune time plus the threshold only for entries recorded with "+sub.String()+"; entries are also recorded with "+strings.Join(other, ", ")+": after leaving a topic (unsubscribe backoff) or a PRUNE naming its own period, a GRAFT inside the flood threshold is penalised once instead of twice (or twice long after it)")
 	c.Min["R08.5"] = 1
+}
+
+// R08.6: "the period named in the received PRUNE" is a uint64 number of seconds chosen by the peer; scaling
+// it to a Duration overflows above 2^63/1e9 seconds and a wrapped (negative) period makes the recorded expiry lie
+// in the past. Every conversion `time.Duration(x) * time.Second` of a value read from the wire with GetBackoff is
+// dominated by an upper-bound comparison of that value.
+func checkNamedBackoffBounded(c *RuleCtx) {
+	p := c.P
+	f := c.MustFn("R08.6", "(*GossipSubRouter).handlePrune")
+	if f == nil {
+		return
+	}
+	g := p.Graph(f)
+	fromWire := func(e ast.Expr) bool {
+		for _, ch := range p.R(f).Sources(e) {
+			if ch.Leaf != nil && ch.Leaf.Has(func(v *V) bool { return v.IsCall("pb.(*ControlPrune).GetBackoff") }) {
+				return true
+			}
+		}
+		return false
+	}
+	n := 0
+	inspectNoLit(f.Body, func(x ast.Node) bool {
+		be, ok := x.(*ast.BinaryExpr)
+		if !ok || be.Op != token.MUL {
+			return true
+		}
+		// one operand is a conversion to time.Duration of a wire value
+		var inner ast.Expr
+		for _, side := range []ast.Expr{be.X, be.Y} {
+			if ce, ok := unparen(side).(*ast.CallExpr); ok && len(ce.Args) == 1 {
+				if t := f.Info().TypeOf(ce.Fun); t != nil && t.String() == "time.Duration" && fromWire(ce.Args[0]) {
+					inner = ce.Args[0]
+				}
+			}
+		}
+		if inner == nil {
+			return true
+		}
+		n++
+		var root types.Object
+		if id, ok := unparen(inner).(*ast.Ident); ok {
+			root = p.R(f).CopyRoot(f.Info().Uses[id])
+		}
+		pt, located := g.Locate(be)
+		bounded := located && g.DominatedByNode(pt, func(nd ast.Node) bool {
+			found := false
+			ast.Inspect(nd, func(y ast.Node) bool {
+				cmp, ok := y.(*ast.BinaryExpr)
+				if !ok || found {
+					return !found
+				}
+				switch cmp.Op {
+				case token.GTR, token.GEQ, token.LSS, token.LEQ:
+				default:
+					return true
+				}
+				for i, side := range []ast.Expr{cmp.X, cmp.Y} {
+					other := []ast.Expr{cmp.Y, cmp.X}[i]
+					isVal := false
+					if id, ok := unparen(side).(*ast.Ident); ok && root != nil && p.R(f).CopyRoot(f.Info().Uses[id]) == root {
+						isVal = true
+					} else if root == nil && fromWire(side) {
+						isVal = true
+					}
+					if !isVal {
+						continue
+					}
+					// an upper bound: the other side is a constant expression that is not zero
+					if tv, ok := f.Info().Types[other]; ok && tv.Value != nil && tv.Value.String() != "0" {
+						found = true
+					}
+				}
+				return !found
+			})
+			return found
+		})
+		c.Check(bounded, "R08.6", f.Name, "named backoff bounded before it is scaled to a Duration", be, "an upper-bound comparison with a constant dominates the conversion", "the number of seconds named by the peer is multiplied by time.Second without an upper bound: above 2^63/1e9 s the product wraps around, the recorded expiry lies in the past and the peer is GRAFTed again before even the default backoff")
+		return true
+	})
+	if n == 0 {
+		c.Undecided("R08.6", f.Name, "named backoff conversion", f.Decl, "no time.Duration(<wire value>) * ... found (anchor drift)")
+	}
+	c.Min["R08.6"] = 1
+}
+
+// R08.4 (cont.): the PRUNE states the period in whole seconds while the node enforces the configured duration: the
+// conversion must not round down (a 2.5 s backoff stated as 2 s, a 500 ms backoff stated as 0 = "none"), or the peer
+// GRAFTs in good faith inside the enforced period and is penalised. Every division by time.Second in makePrune has
+// a numerator that carries a rounding addend (duration + time.Second - 1) or goes through math.Ceil.
+func checkStatedBackoffNotRoundedDown(c *RuleCtx) {
+	p := c.P
+	f := c.MustFn("R08.4", fnMakePrune)
+	if f == nil {
+		return
+	}
+	n := 0
+	inspectNoLit(f.Body, func(x ast.Node) bool {
+		be, ok := x.(*ast.BinaryExpr)
+		if !ok || be.Op != token.QUO {
+			return true
+		}
+		dv := p.R(f).Val(be.Y)
+		if dv == nil || !(dv.IsConst("time.Second") || dv.IsConst("Second")) {
+			return true
+		}
+		nv := p.R(f).Val(be.X)
+		if nv == nil || !nv.Has(func(v *V) bool {
+			return v.IsField("GossipSubParams.PruneBackoff") || v.IsField("GossipSubParams.UnsubscribeBackoff")
+		}) {
+			return true
+		}
+		n++
+		rounded := nv.Kind == "op" && (nv.Name == "+" || nv.Name == "-") && nv.Has(func(v *V) bool { return v.IsConst("time.Second") || v.IsConst("Second") })
+		suffix := ""
+		if n > 1 {
+			suffix = "#" + itoa(n)
+		}
+		c.Check(rounded, "R08.4", f.Name, "stated backoff not rounded down"+suffix, be, "numerator carries the rounding addend", "the stated period is "+nv.String()+" / time.Second, which rounds down: a backoff that is not a whole number of seconds is stated shorter than it is enforced (a sub-second one as 0, which a v1.1 peer reads as \"none\"), so a peer that waits exactly as long as it was told is refused and penalised")
+		return true
+	})
+	// a Ceil-based conversion has no integer division at all; then there is nothing to check here
+	if n == 0 {
+		c.OK("R08.4", f.Name, "stated backoff not rounded down", f.Decl, "no integer division by time.Second")
+	}
 }
